@@ -2390,9 +2390,19 @@ def _extract_block(body_toks, frm, to, a, rep):
                 k = _next_sig(body_toks, k)
             want = (a.get("closure_params") or "").split()
             ob = _next_sig(body_toks, k)
-            if ob >= len(body_toks) or body_toks[ob].text != "{":
-                raise AnchorLost(f"block_closure {a['block_closure']!r}: the closure body is not a block")
-            cb0 = match_close(body_toks, ob)
+            if ob < len(body_toks) and body_toks[ob].text == "->":
+                # explicit return type: skip to the body block
+                while ob < len(body_toks) and body_toks[ob].text != "{":
+                    ob += 1
+            expr_body = None
+            if ob >= len(body_toks) or body_toks[ob].text != "{" or a.get("closure_expr"):
+                # expression-bodied closure (`|n| Value { .. }`): the body runs to the closing parenthesis of the call
+                call_close = match_close(body_toks, ch[0][1])
+                expr_body = (ob, call_close)
+                # drop a trailing comma of the argument list
+                cb0 = call_close
+            else:
+                cb0 = match_close(body_toks, ob)
             if want:
                 if len(want) != len(names):
                     raise AnchorLost(f"block_closure {a['block_closure']!r}: closure has parameters {names}, wrapper expects {want}")
@@ -2405,6 +2415,9 @@ def _extract_block(body_toks, frm, to, a, rep):
                         if body_toks[q].kind == IDENT and body_toks[q].text in ren:
                             body_toks[q] = T(IDENT, ren[body_toks[q].text])
                     rep.append(("R0", f"closure parameters renamed {ren} (alpha-renaming to the wrapper's names)"))
+            if expr_body is not None:
+                rep.append(("R0", f"inline block: expression body of the closure `{a['block_closure'][:60]}` wrapped as `{a['wrap']}`"))
+                return [T(PUNCT, "{"), T(WS, "\n")] + body_toks[expr_body[0]:expr_body[1]] + [T(WS, "\n"), T(PUNCT, "}")]
         if ob >= len(body_toks) or body_toks[ob].text != "{":
             raise AnchorLost(f"block_closure {a['block_closure']!r}: the closure body is not a block")
         cb = match_close(body_toks, ob)
